@@ -52,15 +52,20 @@ def type_infer(t, *, forbid_internal=True):
 
     def union(T1, T2):
         """Join temporary type variable T1 with T2."""
-        # Compute the set of temporary type variables reachable from T2.
-        if is_internal_type(T2):
-            new_reach = reach[int(T2.name[2:])]
-        else:
-            new_reach = set()
-            for T in T2.get_stvars():
-                if is_internal_type(T):
-                    new_reach.add(int(T.name[2:]))
-                    new_reach.update(reach[int(T.name[2:])])
+        # Compute the set of temporary type variables reachable from T2,
+        # following the current assignments in uf. (The sets recorded in
+        # reach are not enough: they are not updated for variables whose
+        # assignment merely contains a variable that is assigned later.)
+        new_reach = set()
+        def visit(T):
+            for subT in T.get_stvars():
+                if is_internal_type(subT):
+                    k = int(subT.name[2:])
+                    if k not in new_reach:
+                        new_reach.add(k)
+                        if uf[k] != subT:
+                            visit(uf[k])
+        visit(T2)
 
         # Update uf and reach, check for cycles in reach.
         for k, v in uf.items():
